@@ -65,7 +65,10 @@ def main(argv):
             ids.append(argv[i]); i += 1
     if not ids:
         ids = [c["property_id"] for c in json.load(open(os.path.join(VERIF, "MANIFEST.json")))["checks"]]
-    report = {"tier": tier, "verif_seed": seed, "runs_per_property": n, "properties": {}}
+    rp = os.path.join(VERIF, "selftest", "determinism_report.json")
+    report = {"properties": {}}
+    if os.path.exists(rp):
+        report = json.load(open(rp))   # merge: one entry per property, the latest run wins
     bad = 0
     for pid in ids:
         t0 = time.time()
@@ -74,7 +77,7 @@ def main(argv):
         b, eb = digests(pid, tier, seed, list(reversed(idxs)), 90210, 3 * procs + 1, max(1, procs // 2))
         mism = sorted(k for k in a if k in b and a[k] != b[k])
         missing = sorted(set(idxs) - set(a)) + sorted(set(idxs) - set(b))
-        report["properties"][pid] = {"compared": len([k for k in a if k in b]), "mismatching_run_indices": mism, "errors": ea + eb,
+        report["properties"][pid] = {"tier": tier, "verif_seed": seed, "compared": len([k for k in a if k in b]), "mismatching_run_indices": mism, "errors": ea + eb,
                                      "distinct_digests": len(set(a.values())), "wall_s": round(time.time() - t0, 1)}
         ok = not mism and not ea and not eb and not missing
         print("%s compared=%d mismatches=%d errors=%d distinct=%d %.0fs %s" % (pid, len([k for k in a if k in b]), len(mism), len(ea + eb), len(set(a.values())), time.time() - t0, "OK" if ok else "FAIL"))
@@ -82,7 +85,7 @@ def main(argv):
         if not ok:
             bad += 1
     os.makedirs(os.path.join(VERIF, "selftest"), exist_ok=True)
-    with open(os.path.join(VERIF, "selftest", "determinism_report.json"), "w") as f:
+    with open(rp, "w") as f:
         json.dump(report, f, indent=1)
     return 2 if bad else 0
 
